@@ -27,8 +27,12 @@ RULE = ('Every DoWhile document shape of the tier (verif/gen/c05_shapes.shapes: 
         'bindings) is driven for k = 1..K (K = 12 quick, 25 thorough; both cross the 9->10 boundary); additional '
         'histories interleave restarts (the instance is loaded again with Experiment.experimentFromInstance after '
         'iterations {2,10} quick; {1}, {9,10}, {11,24} thorough) and the state right after each restart is judged too. '
-        'The quick tier adds 6 seed-rotated shapes of the thorough space to its fixed core. After every step '
-        'the complete state is judged: node sets, every instance 0..k (references, command line, predecessors), '
+        'The quick tier adds 6 seed-rotated shapes of the thorough space to its fixed core. Workflows with TWO (thorough: '
+        'also three) DoWhile documents (consecutive stages in both registration orders, same stage, same component names '
+        'in different stages; thorough: different topologies, suffix names, three loops) are driven through EVERY word of '
+        'length 4 (thorough 6; three loops 4) over the loops (all interleavings) plus long schedules in which one loop '
+        'crosses 9->10 while the other is behind / ahead / in step, plus schedules with restarts. After every step '
+        'the complete state (of every loop, each with its own k) is judged: node sets, every instance 0..k (references, command line, predecessors), '
         'placeholders, DoWhile state, stored flowir_instance.yaml, and DataReference.resolve / '
         'true_reference_to_component_id for every outside spelling (8 methods x with/without file x abs/rel) of every '
         'looped component. A state (shape, k, restarts so far) is non-trivial when k >= 1; distinct = distinct states. '
@@ -49,10 +53,14 @@ ASSUMPTIONS = [
     'an outside consumer must (at least) depend on the newest instance of what it references and on every instance for '
     'aggregate references; it may additionally depend on older instances and on condition producers',
     'the return value of instantiate_dowhile_next_iteration is judged against its docstring (names of the new components)',
+    'in a workflow with several DoWhile documents the statement holds for every loop separately, each with its own '
+    'number of further iterations; loops advance independently in any interleaving (under the controller a loop advances '
+    'whenever its own condition component finishes)',
     'a workflow loaded again from its instance directory (after iterations were stored with store_flowir_to_disk=True) is '
     'still "the workflow" of the statement; failures seen only after such a restart carry the sig prefix after-reload:',
 ]
-MC_EXPLANATION = ('states = (document shape, k[, restarts]) triples, k = number of further iterations instantiated; '
+MC_EXPLANATION = ('states = (document shape, k[, restarts]) triples (vector k, one entry per DoWhile document, for workflows '
+                  'with several loops), k = number of further iterations instantiated; '
                   'transitions = calls of the real WorkflowGraph.instantiate_dowhile_next_iteration(document, k, store) on '
                   'one live WorkflowGraph per shape, plus restart transitions (Experiment.experimentFromInstance on the '
                   'instance directory); every state reached is compared in full with the reference model of the '
@@ -76,24 +84,32 @@ def _content(kind, stage, name):
 
 
 class Run:
-    """One live experiment of one shape."""
+    """One live experiment of one (single- or multi-loop) shape; `ks[j]` = further iterations of loop j so far."""
 
-    def __init__(self, col, shape, scratch):
+    def __init__(self, col, shape, scratch, word=''):
         import yaml
         from verif.gen.pkg import experiment_from_doc
         self.col = col
         self.shape = shape
-        main, dw = GEN.to_documents(shape)
-        self.exp = experiment_from_doc(main, scratch, extra_files={'conf/dowhile.yaml': yaml.safe_dump(dw, sort_keys=False)})
+        self.word = word
+        self.pos = 0
+        self.loops = M.loops_of(shape)
+        self.ks = [0] * len(self.loops)
+        main, dws = GEN.to_documents(shape)
+        extra = {'conf/' + n: yaml.safe_dump(d, sort_keys=False) for n, d in dws.items()}
+        self.exp = experiment_from_doc(main, scratch, extra_files=extra)
         self.wg = self.exp.experimentGraph
         self.root = self.exp.instanceDirectory.location
-        self.dw_id = 'stage%d.loop' % shape['S']
-        docs = self.wg._documents.get(DW_LABEL, {})
-        if list(docs) != [self.dw_id]:
-            raise HarnessError('expected exactly the DoWhile document %s, found %r' % (self.dw_id, list(docs)))
+        self.dw_ids = [M.dowhile_id(l) for l in self.loops]
+        self._check_documents('')
         self.nonloop0 = None
         self.written = set()
         self.reloaded = 0
+
+    def _check_documents(self, when):
+        docs = self.wg._documents.get(DW_LABEL, {})
+        if sorted(docs) != sorted(self.dw_ids):
+            raise HarnessError('%sexpected exactly the DoWhile documents %r, found %r' % (when, self.dw_ids, list(docs)))
 
     # ---------------------------------------------------------------- driver
     def reload(self):
@@ -102,13 +118,14 @@ class Run:
         self.exp = experiment.model.data.Experiment.experimentFromInstance(self.root)
         self.wg = self.exp.experimentGraph
         self.reloaded += 1
-        docs = self.wg._documents.get(DW_LABEL, {})
-        if list(docs) != [self.dw_id]:
-            raise HarnessError('after reload: expected exactly the DoWhile document %s, found %r' % (self.dw_id, list(docs)))
+        self._check_documents('after reload: ')
 
-    def step(self, k):
-        doc = self.wg._documents[DW_LABEL][self.dw_id]['document']
-        return self.wg.instantiate_dowhile_next_iteration(doc, k, self.shape['store'])
+    def step(self, j):
+        """One further iteration of loop j, called the way the controller does (stored document, next number)."""
+        doc = self.wg._documents[DW_LABEL][self.dw_ids[j]]['document']
+        new = self.wg.instantiate_dowhile_next_iteration(doc, self.ks[j] + 1, self.shape['store'])
+        self.ks[j] += 1
+        return new
 
     def path_of(self, stage, name, fil=None):
         p = os.path.join(self.root, 'stages', 'stage%d' % stage, name)
@@ -127,20 +144,26 @@ class Run:
             with open(os.path.join(d, 'f.txt'), 'w') as f:
                 f.write(_content('F', stage, name) + '\n')
 
+    def where(self):
+        t = 'k=%d' % self.ks[0] if len(self.ks) == 1 else 'history=%s ks=%s' % (self.word[:self.pos], self.ks)
+        return '%s %s%s' % (self.shape['label'], t, ' after reload' if self.reloaded else '')
+
     # ---------------------------------------------------------------- observation + judgement
-    def fail(self, k, sig, why, observed):
+    def fail(self, j, sig, why, observed):
+        """j = index of the loop the failing observation belongs to."""
         self.nfail += 1
         if self.reloaded:
             sig = 'after-reload:' + sig
         self.col.outcome('FAIL:' + sig)
-        self.col.fail({'shape': self.shape, 'k': k, 'reloaded': self.reloaded},
-                      '[%s k=%d%s] %s' % (self.shape['label'], k, ' after reload' if self.reloaded else '', why), observed, sig=sig)
+        observed = dict(observed, loop=j)
+        self.col.fail({'shape': self.shape, 'word': self.word, 'pos': self.pos, 'ks': list(self.ks), 'k': self.ks[j],
+                       'reloaded': self.reloaded}, '[%s] %s' % (self.where(), why), observed, sig=sig)
 
-    def check(self, k, returned_new):
+    def check(self, returned_new, stepped):
         import experiment.model.graph as G
         self.nfail = 0
-        shape, wg = self.shape, self.wg
-        want = M.expected_state(shape, k)
+        shape, wg, ks = self.shape, self.wg, self.ks
+        want = M.expected_state_v(shape, ks)
         self.write_outputs(want)
         graph = wg.graph
         nodes = set(graph.nodes)
@@ -151,13 +174,14 @@ class Run:
             expected_nonloop = set(want['outside']) | set(want['consumers'])
             if nonloop != expected_nonloop:
                 raise HarnessError('non-looped nodes %r differ from the generated ones %r' % (sorted(nonloop), sorted(expected_nonloop)))
-        # 1. exactly the instances 0..k
+        j0 = stepped if stepped is not None else 0
+        # 1. exactly the instances 0..k of every loop
         exp_inst = set(want['instances'])
         if looped != exp_inst:
-            self.fail(k, 'instances:graph-nodes', 'looped nodes of the graph are not exactly the instances 0..k',
+            self.fail(j0, 'instances:graph-nodes', 'looped nodes of the graph are not exactly the instances 0..k',
                       {'missing': sorted(exp_inst - looped), 'unexpected': sorted(looped - exp_inst)})
         if nonloop != self.nonloop0:
-            self.fail(k, 'instances:non-looped-nodes-changed', 'the set of non-looped nodes changed',
+            self.fail(j0, 'instances:non-looped-nodes-changed', 'the set of non-looped nodes changed',
                       {'missing': sorted(self.nonloop0 - nonloop), 'unexpected': sorted(nonloop - self.nonloop0)})
         try:
             conc = {'stage%d.%s' % c for c in wg._concrete.get_component_identifiers(True) if '#' in c[1]}
@@ -165,47 +189,48 @@ class Run:
         except AttributeError as e:
             raise HarnessError('cannot read component identifiers: %s' % e)
         if conc != exp_inst:
-            self.fail(k, 'instances:concrete', 'looped components of the replicated FlowIR are not exactly the instances 0..k',
+            self.fail(j0, 'instances:concrete', 'looped components of the replicated FlowIR are not exactly the instances 0..k',
                       {'missing': sorted(exp_inst - conc), 'unexpected': sorted(conc - exp_inst)})
         if unrep != want['unreplicated']:
-            self.fail(k, 'instances:unreplicated', 'looped components of the unreplicated FlowIR are not exactly the instances 0..k',
+            self.fail(j0, 'instances:unreplicated', 'looped components of the unreplicated FlowIR are not exactly the instances 0..k',
                       {'missing': sorted(want['unreplicated'] - unrep), 'unexpected': sorted(unrep - want['unreplicated'])})
         if returned_new is not None:
-            exp_new = {n for n, d in want['instances'].items() if d['iter'] == k}
+            exp_new = {n for n, d in want['instances'].items() if d['loop'] == stepped and d['iter'] == ks[stepped]}
             if set(returned_new) != exp_new or len(returned_new) != len(set(returned_new)):
-                self.fail(k, 'instances:returned-new', 'returned names are not the components of iteration k',
+                self.fail(stepped, 'instances:returned-new', 'returned names are not the components of the new iteration',
                           {'got': sorted(returned_new), 'want': sorted(exp_new)})
-        if shape['store'] and k >= 1:
-            self.check_stored(k, want)
+        if shape['store'] and sum(ks) >= 1:
+            self.check_stored(j0, want)
         # 2. inputs of every instance
         for name in sorted(exp_inst & looped):
             w = want['instances'][name]
+            j = w['loop']
             stage = int(name.split('.', 1)[0][5:])
             try:
                 spec = graph.nodes[name]['componentSpecification']
                 raw = list(spec.rawDataReferences)
                 args = spec.commandDetails.get('arguments') or ''
             except Exception as e:
-                self.fail(k, 'inputs:unreadable', 'cannot read the specification of %s: %r' % (name, e), {'node': name})
+                self.fail(j, 'inputs:unreadable', 'cannot read the specification of %s: %r' % (name, e), {'node': name})
                 continue
             got = {M.parse_ref(r, stage) for r in raw}
             kind = 'carried' if (w['iter'] > 0 and any('#' in r[1] and not r[1].startswith('%d#' % w['iter']) for r in w['refs'])) else 'plain'
             if got != w['refs']:
-                self.fail(k, 'inputs:references:%s' % kind, 'references of %s are %r, expected %r' % (name, sorted(raw), sorted(w['refs'], key=repr)),
-                          {'node': name, 'iter': w['iter'], 'got': sorted(raw), 'want': sorted(map(list, w['refs']), key=repr)})
+                self.fail(j, 'inputs:references:%s' % kind, 'references of %s are %r, expected %r' % (name, sorted(raw), sorted(w['refs'], key=repr)),
+                          {'node': name, 'iter': w['iter'], 'comp': w['comp'], 'got': sorted(raw), 'want': sorted(map(list, w['refs']), key=repr)})
             want_args = {r for r in w['refs'] if r[3] in GEN.CMDLINE_METHODS}
             if want_args:
                 got_args = {M.parse_ref(t, stage) for t in args.split()}
                 if got_args != want_args:
-                    self.fail(k, 'inputs:arguments:%s' % kind, 'command line of %s is %r, expected the references %r' % (name, args, sorted(want_args, key=repr)),
-                              {'node': name, 'iter': w['iter'], 'got': args, 'want': sorted(map(list, want_args), key=repr)})
+                    self.fail(j, 'inputs:arguments:%s' % kind, 'command line of %s is %r, expected the references %r' % (name, args, sorted(want_args, key=repr)),
+                              {'node': name, 'iter': w['iter'], 'comp': w['comp'], 'got': args, 'want': sorted(map(list, want_args), key=repr)})
             preds = set(graph.predecessors(name))
             if preds != w['preds']:
-                self.fail(k, 'inputs:predecessors:%s' % kind, 'predecessors of %s are %r, expected %r' % (name, sorted(preds), sorted(w['preds'])),
-                          {'node': name, 'iter': w['iter'], 'got': sorted(preds), 'want': sorted(w['preds'])})
+                self.fail(j, 'inputs:predecessors:%s' % kind, 'predecessors of %s are %r, expected %r' % (name, sorted(preds), sorted(w['preds'])),
+                          {'node': name, 'iter': w['iter'], 'comp': w['comp'], 'got': sorted(preds), 'want': sorted(w['preds'])})
         for name in sorted(want['outside']):
             if name in nodes and set(graph.predecessors(name)):
-                self.fail(k, 'inputs:outside-producer-has-predecessors', '%s gained predecessors %r' % (name, sorted(graph.predecessors(name))),
+                self.fail(j0, 'inputs:outside-producer-has-predecessors', '%s gained predecessors %r' % (name, sorted(graph.predecessors(name))),
                           {'node': name, 'got': sorted(graph.predecessors(name))})
         # 3. outside consumers
         for name, w in sorted(want['consumers'].items()):
@@ -214,52 +239,67 @@ class Run:
             preds = set(graph.predecessors(name))
             if not (w['must'] <= preds <= w['may']):
                 sig = 'consumer:predecessors:missing-newest' if not w['must'] <= preds else 'consumer:predecessors:foreign'
-                self.fail(k, sig, 'predecessors of outside consumer %s: missing %r, unexpected %r' % (
+                self.fail(j0, sig, 'predecessors of outside consumer %s: missing %r, unexpected %r' % (
                     name, sorted(w['must'] - preds), sorted(preds - w['may'])),
                     {'node': name, 'missing': sorted(w['must'] - preds), 'unexpected': sorted(preds - w['may'])})
         # 4. placeholders
         ph = wg._placeholders
         if set(ph) != set(want['placeholders']):
-            self.fail(k, 'placeholder:set', 'placeholders are %r, expected %r' % (sorted(ph), sorted(want['placeholders'])),
+            self.fail(j0, 'placeholder:set', 'placeholders are %r, expected %r' % (sorted(ph), sorted(want['placeholders'])),
                       {'got': sorted(ph), 'want': sorted(want['placeholders'])})
         for pid, w in sorted(want['placeholders'].items()):
             if pid not in ph:
                 continue
+            j = want['placeholder_loop'][pid]
             if ph[pid].get('latest') != w['latest']:
-                self.fail(k, 'placeholder:latest', 'placeholder %s: latest is %r, expected %r' % (pid, ph[pid].get('latest'), w['latest']),
-                          {'placeholder': pid, 'got': ph[pid].get('latest'), 'got_iters': _iters([ph[pid].get('latest')]), 'want_iters': [k]})
+                self.fail(j, 'placeholder:latest', 'placeholder %s: latest is %r, expected %r' % (pid, ph[pid].get('latest'), w['latest']),
+                          {'placeholder': pid, 'got': ph[pid].get('latest'), 'got_iters': _iters([ph[pid].get('latest')]), 'want_iters': [ks[j]]})
             rep = list(ph[pid].get('represents') or [])
             if set(rep) != w['represents'] or len(rep) != len(set(rep)):
-                self.fail(k, 'placeholder:represents', 'placeholder %s represents %r, expected the instances 0..%d' % (pid, sorted(rep), k),
+                self.fail(j, 'placeholder:represents', 'placeholder %s represents %r, expected the instances 0..%d' % (pid, sorted(rep), ks[j]),
                           {'placeholder': pid, 'got': sorted(rep)})
-        # 4b. the helper of the front-end that maps a placeholder to its newest instance (anchored mechanism)
+        # 4b. the helper of the front-end that maps a placeholder to its newest instance (anchored mechanism); it is
+        #     only asked about names that are unique in the workflow (it takes no notice of the stage)
         import experiment.model.frontends.flowir as F
         helper = getattr(F, 'map_placeholder_id_to_iteration', None)
         if helper is not None:
             known_ids = set(wg._concrete.get_component_identifiers(True))
+            bases = [pid.split('.', 1)[1] for pid in want['placeholders']]
             for pid, w in sorted(want['placeholders'].items()):
                 stage, base = int(pid.split('.', 1)[0][5:]), pid.split('.', 1)[1]
+                if bases.count(base) != 1:
+                    continue
+                j = want['placeholder_loop'][pid]
                 try:
                     got = helper((stage, base), [], known_ids)
                 except Exception as e:
                     got = repr(e)
                 got_id = 'stage%d.%s' % tuple(got) if isinstance(got, tuple) and len(got) == 2 else got
                 if got_id != w['latest']:
-                    self.fail(k, 'helper:map-placeholder-latest', 'map_placeholder_id_to_iteration(%r) is %r, expected %r' % ((stage, base), got_id, w['latest']),
-                              {'placeholder': pid, 'got': got_id, 'got_iters': _iters([got_id]), 'want_iters': [k]})
-        # 5. state
-        st = wg._documents[DW_LABEL][self.dw_id].get('state') or {}
-        if st.get('currentIteration') != k:
-            self.fail(k, 'state:iteration', 'currentIteration is %r, expected %d' % (st.get('currentIteration'), k),
-                      {'got': st.get('currentIteration'), 'got_iters': [st.get('currentIteration')], 'want_iters': [k]})
-        cond = M.parse_ref(str(st.get('currentCondition')), shape['S'])
-        if cond != want['state']['condition']:
-            self.fail(k, 'state:condition', 'currentCondition is %r, expected %r' % (st.get('currentCondition'), want['state']['condition']),
-                      {'got': st.get('currentCondition'), 'got_iters': _iters([st.get('currentCondition')]), 'want_iters': [k]})
-        # 6. every outside spelling
-        for p in M.probes(shape):
+                    self.fail(j, 'helper:map-placeholder-latest', 'map_placeholder_id_to_iteration(%r) is %r, expected %r' % ((stage, base), got_id, w['latest']),
+                              {'placeholder': pid, 'got': got_id, 'got_iters': _iters([got_id]), 'want_iters': [ks[j]]})
+        # 5. state of every loop
+        for dw_id, w in sorted(want['states'].items()):
+            j = w['loop']
+            st = wg._documents[DW_LABEL][dw_id].get('state') or {}
+            if st.get('currentIteration') != ks[j]:
+                self.fail(j, 'state:iteration', 'currentIteration of %s is %r, expected %d' % (dw_id, st.get('currentIteration'), ks[j]),
+                          {'dowhile': dw_id, 'got': st.get('currentIteration'), 'got_iters': [st.get('currentIteration')], 'want_iters': [ks[j]]})
+            cond = M.parse_ref(str(st.get('currentCondition')), self.loops[j]['S'])
+            if cond != w['condition']:
+                self.fail(j, 'state:condition', 'currentCondition of %s is %r, expected %r' % (dw_id, st.get('currentCondition'), w['condition']),
+                          {'dowhile': dw_id, 'got': st.get('currentCondition'), 'got_stage': cond[0] if cond else None,
+                           'got_iters': _iters([st.get('currentCondition')]), 'want_iters': [ks[j]]})
+        # 6. every outside spelling of every looped component
+        for j, loop in enumerate(self.loops):
+            self.check_probes(G, j, loop)
+        return self.nfail
+
+    def check_probes(self, G, j, loop):
+        wg, k = self.wg, self.ks[j]
+        for p in M.probes(loop):
             text = M.probe_text(p)
-            kind, items = M.expected_probe(shape, k, p)
+            kind, items = M.expected_probe(loop, k, p)
             if kind == 'paths':
                 exp_tokens = [self.path_of(*it) for it in items]
             else:
@@ -269,7 +309,7 @@ class Run:
                 dr = G.DataReference(text, stageIndex=p['stage'] if p['spell'] == 'rel' else None)
                 got = dr.resolve(wg)
             except Exception as e:
-                self.fail(k, ('aggregate' if agg else 'outside') + ':resolve-raised:%s' % p['method'],
+                self.fail(j, ('aggregate' if agg else 'outside') + ':resolve-raised:%s' % p['method'],
                           'resolving %s raised %r' % (text, e), {'reference': text, 'error': repr(e)})
                 continue
             got_tokens = str(got).split()
@@ -279,24 +319,23 @@ class Run:
                     sig = 'aggregate:order:%s' % p['method'] if sorted(got_tokens) == sorted(exp_tokens) else 'aggregate:members:%s' % p['method']
                 else:
                     sig = 'outside:resolve:%s' % p['method']
-                self.fail(k, sig, '%s resolves to iterations %r, expected %r' % (text, gi, wi),
+                self.fail(j, sig, '%s resolves to %r (iterations %r), expected iterations %r' % (text, got_tokens[:3], gi, wi),
                           {'reference': text, 'got': got_tokens[:40], 'got_iters': gi, 'want_iters': wi})
             if p['spell'] == 'abs' and p['file'] is None and p['method'] != 'loopoutput':
                 try:
                     ids = dr.true_reference_to_component_id(wg)
                 except Exception as e:
-                    self.fail(k, 'outside:component-id-raised', 'true_reference_to_component_id(%s) raised %r' % (text, e), {'reference': text})
+                    self.fail(j, 'outside:component-id-raised', 'true_reference_to_component_id(%s) raised %r' % (text, e), {'reference': text})
                     continue
                 got_ids = None if ids is None else ['stage%d.%s' % tuple(c) for c in ids]
                 exp_ids = ['stage%d.%s' % (it[0], it[1]) for it in items]
                 bad = (got_ids is None or (sorted(got_ids) != sorted(exp_ids) if agg else got_ids != exp_ids))
                 if bad:
-                    self.fail(k, 'aggregate:component-ids' if agg else 'outside:component-id',
+                    self.fail(j, 'aggregate:component-ids' if agg else 'outside:component-id',
                               'producers of %s are %r, expected %r' % (text, got_ids, exp_ids),
                               {'reference': text, 'got': got_ids, 'got_iters': _iters(got_ids or []), 'want_iters': [int(it[1].split('#')[0]) for it in items]})
-        return self.nfail
 
-    def check_stored(self, k, want):
+    def check_stored(self, j0, want):
         import yaml
         path = os.path.join(self.root, 'conf', 'flowir_instance.yaml')
         try:
@@ -304,38 +343,45 @@ class Run:
                 doc = yaml.safe_load(f)
             stored = {'stage%d.%s' % (c.get('stage', 0), c['name']) for c in doc['components'] if '#' in c['name']}
         except Exception as e:
-            self.fail(k, 'instances:stored-file-unreadable', 'cannot read %s: %r' % (path, e), {'error': repr(e)})
+            self.fail(j0, 'instances:stored-file-unreadable', 'cannot read %s: %r' % (path, e), {'error': repr(e)})
             return
         if stored != want['unreplicated']:
-            self.fail(k, 'instances:stored-file', 'flowir_instance.yaml does not hold exactly the instances 0..k',
+            self.fail(j0, 'instances:stored-file', 'flowir_instance.yaml does not hold exactly the instances 0..k',
                       {'missing': sorted(want['unreplicated'] - stored), 'unexpected': sorted(stored - want['unreplicated'])})
 
 
-def run_shape(col, shape, K, only=None):
-    """Drives one shape through k = 0..K (reloading the instance after every k listed in shape['reloads']); judges
-    every state, or only the state `only` = (k, number of reloads done)."""
+def word_for(shape, K):
+    """History of a single-loop shape: K further iterations, a restart (R) after every iteration in shape['reloads']."""
+    reloads = set(shape.get('reloads') or [])
+    return ''.join('A' + ('R' if k in reloads else '') for k in range(1, K + 1))
+
+
+def run_shape(col, shape, word, only=None):
+    """Drives one shape through the history `word` (A/B/C = one further iteration of loop 0/1/2, R = restart from the
+    instance directory); judges the state after every prefix, or only after the prefix of length `only`."""
     from verif.gen.pkg import scratch_dir
     sid = case_id(shape)
-    reloads = set(shape.get('reloads') or [])
 
-    def judge(run, k, new):
-        if only is not None and (k, run.reloaded) != tuple(only):
+    def judge(run, new, stepped):
+        if only is not None and run.pos != only:
             # outputs of earlier instances must still exist for the judged state
-            run.write_outputs(M.expected_state(shape, k))
+            run.write_outputs(M.expected_state_v(shape, run.ks))
             if run.nonloop0 is None:
                 run.nonloop0 = {n for n in run.wg.graph.nodes if '#' not in n}
             return
         col.evaluated()
-        key = '%s:%d%s' % (sid, k, ':r%d' % run.reloaded if run.reloaded else '')
+        key = '%s:%s%s' % (sid, ','.join(map(str, run.ks)), ':r%d' % run.reloaded if run.reloaded else '')
         col.state(key)
+        k = max(run.ks)
         if k >= 1:
             col.nontriv(key)
-        if run.check(k, new) == 0:
-            col.outcome(('ok-after-reload:' if run.reloaded else 'ok:') + ('k=0' if k == 0 else ('1<=k<=9' if k <= 9 else 'k>=10')))
+        if run.check(new, stepped) == 0:
+            col.outcome(('ok-after-reload:' if run.reloaded else 'ok:') + ('multi:' if len(run.ks) > 1 else '') +
+                        ('k=0' if k == 0 else ('1<=k<=9' if k <= 9 else 'k>=10')))
 
     with scratch_dir('c05-') as d:
         try:
-            run = Run(col, shape, d)
+            run = Run(col, shape, d, word)
         except HarnessError:
             raise
         except Exception as e:
@@ -344,24 +390,12 @@ def run_shape(col, shape, K, only=None):
             col.count('shapes_rejected_at_load')
             col.payload.append(('rejected', shape['label'], repr(e)[:300]))
             return
-        for k in range(0, K + 1):
-            new = None
-            if k >= 1:
-                try:
-                    new = run.step(k)
-                    col.transitions += 1
-                except Exception as e:
-                    col.evaluated()
-                    col.outcome('FAIL:step-raised')
-                    col.fail({'shape': shape, 'k': k, 'reloaded': run.reloaded},
-                             '[%s k=%d] instantiate_dowhile_next_iteration raised %r although the document was loaded '
-                             'and iterations 0..%d exist' % (shape['label'], k, e, k - 1),
-                             {'error': repr(e)[:500]}, sig='%sstep-raised:%s' % ('after-reload:' if run.reloaded else '', type(e).__name__))
-                    return
-            judge(run, k, new)
-            if only is not None and (k, run.reloaded) == tuple(only):
+        judge(run, None, None)
+        for pos, letter in enumerate(word, 1):
+            if only is not None and run.pos >= only:
                 break
-            if k in reloads:
+            run.pos = pos
+            if letter == 'R':
                 try:
                     run.reload()
                     col.transitions += 1
@@ -369,54 +403,70 @@ def run_shape(col, shape, K, only=None):
                 except HarnessError:
                     raise
                 except Exception as e:
+                    run.reloaded += 1
+                    run.nfail = 0
                     col.evaluated()
-                    col.outcome('FAIL:reload-raised')
-                    col.fail({'shape': shape, 'k': k, 'reloaded': run.reloaded + 1},
-                             '[%s k=%d] loading the instance again after %d stored iterations raised %r' % (shape['label'], k, k, e),
-                             {'error': repr(e)[:500]}, sig='after-reload:reload-raised:%s' % type(e).__name__)
+                    run.fail(0, 'reload-raised:%s' % type(e).__name__,
+                             'loading the instance again after the stored iterations %r raised %r' % (run.ks, e), {'error': repr(e)[:500]})
                     return
-                judge(run, k, None)
-                if only is not None and (k, run.reloaded) == tuple(only):
-                    break
+                judge(run, None, None)
+                continue
+            j = ord(letter) - ord('A')
+            try:
+                new = run.step(j)
+                col.transitions += 1
+            except Exception as e:
+                run.ks[j] += 1
+                run.nfail = 0
+                col.evaluated()
+                run.fail(j, 'step-raised:%s' % type(e).__name__,
+                         'instantiate_dowhile_next_iteration raised %r although the document was loaded and the earlier '
+                         'iterations exist' % (e,), {'error': repr(e)[:500]})
+                return
+            judge(run, new, j)
         col.traces += 1
 
 
 def worker(col, item, tier, seed):
-    shape, K = item
-    run_shape(col, shape, K)
-    if len(shape['comps']) >= 2:
-        col.sample({'shape': shape['label'], 'S': shape['S'], 'K': K,
-                    'bindings': {b: [v['type'], v['file_at'], v['carried_from']] for b, v in shape['bindings'].items()}})
+    shape, word = item
+    run_shape(col, shape, word)
+    if len(M.loops_of(shape)) > 1 or len(shape['comps']) >= 2:
+        col.sample({'shape': shape['label'], 'history': word if len(word) < 40 else word[:37] + '...',
+                    'loops': [{'S': l['S'], 'components': [c['name'] for c in l['comps']],
+                               'bindings': {b: [v['type'], v['file_at'], v['carried_from']] for b, v in l['bindings'].items()}}
+                              for l in M.loops_of(shape)]})
 
 
 def tier_items(thorough, seed):
-    core = GEN.shapes(thorough)
     K = K_THOROUGH if thorough else K_QUICK
-    items = [(s, K) for s in core]
+    items = [(s, word_for(s, K)) for s in GEN.shapes(thorough)]
+    multi = [(m, w) for m in GEN.multi_shapes(thorough) for w in GEN.multi_words(m, thorough)]
     extra = []
     if not thorough:
         # seed-rotated extra stratum: a few shapes of the thorough space (subset of what thorough covers)
-        keys = {repr(s) for s in core}
+        keys = {repr(s) for s, _ in items}
         rest = [s for s in GEN.shapes(True) if repr(s) not in keys]
         n = 6
         if rest:
             start = (seed * n) % len(rest)
-            extra = [((rest + rest)[start + j], K) for j in range(min(n, len(rest)))]
-    return items, extra
+            extra = [((rest + rest)[start + i], None) for i in range(min(n, len(rest)))]
+            extra = [(s, word_for(dict(s, reloads=[r for r in s['reloads'] if r <= K]), K)) for s, _ in extra]
+    return items, multi, extra
 
 
 def run(ctx):
-    items, extra = tier_items(ctx.thorough, ctx.seed)
+    items, multi, extra = tier_items(ctx.thorough, ctx.seed)
     ctx.count('shapes_core', len(items))
+    ctx.count('multi_loop_histories', len(multi))
     ctx.count('shapes_seed_stratum', len(extra))
     # longest histories first (better packing)
-    allitems = sorted(items + extra, key=lambda it: -len(it[0]['comps']))
+    allitems = sorted(items + extra + multi, key=lambda it: -len(it[1]) * len(M.loops_of(it[0])))
     try:        # imported once in the parent so that the forked workers do not pay for it again
         import experiment.model.data  # noqa: F401
         import experiment.model.graph  # noqa: F401
     except Exception as e:
         raise HarnessError('cannot import the code under check: %r' % e)
-    ctx.pmap('verif.props.c05', 'worker', allitems, maxtasksperchild=8)
+    ctx.pmap('verif.props.c05', 'worker', allitems, maxtasksperchild=12)
     rejected = [p for p in ctx.payload if p and p[0] == 'rejected']
     if len(rejected) * 10 > len(allitems):
         raise HarnessError('%d of %d shapes were rejected by the loader, e.g. %r' % (len(rejected), len(allitems), rejected[:3]))
@@ -425,7 +475,15 @@ def run(ctx):
 
 
 def replay(ctx, case):
-    run_shape(ctx, case['shape'], case['k'], only=(case['k'], int(case.get('reloaded') or 0)))
+    if 'word' in case:
+        run_shape(ctx, case['shape'], case['word'], only=case['pos'])
+    else:       # replay files written before histories became words
+        word = word_for(case['shape'], case['k'])
+        n = int(case.get('reloaded') or 0)
+        pos = len(word)
+        if word.endswith('R') and word.count('R') > n:
+            pos -= 1
+        run_shape(ctx, case['shape'], word, only=pos)
 
 
 # ------------------------------------------------------------------ known-finding selectors
@@ -459,5 +517,70 @@ def _sel_aggregate_lexicographic(f):
     return ob.get('want_iters') == want and ob.get('got_iters') == sorted(want, key=str)
 
 
+def _sel_arguments_rewritten_twice(f):
+    """command line of an instance whose component consumes the same looped producer twice - through a loop-carried
+    binding (previous iteration) and directly (this iteration), same method and file: the second substitution lands
+    inside the text the first one inserted ('stage1.0#stage1.1#work:output work:output')"""
+    ob = f.get('observed') or {}
+    if not _strip(f['sig']).startswith('inputs:arguments:') or not ob.get('iter'):
+        return False
+    try:
+        loop = M.loops_of(f['case']['shape'])[ob['loop']]
+        comp = loop['comps'][ob['comp']]
+    except (KeyError, IndexError, TypeError):
+        return False
+    trigger = False
+    for bname in comp['uses']:
+        b = loop['bindings'][bname]
+        if b.get('carried_from') is None:
+            continue
+        for (pi, _sp, method, fil) in comp['deps']:
+            if pi == b['carried_from'] and method == b['type'] and (fil or None) == M.binding_effective_file(b):
+                trigger = True
+    return trigger and re.search(r'\d+#stage\d+\.\d+#', str(ob.get('got'))) is not None
+
+
+def _sharing_condition_name(shape, ks):
+    """-> {loop index: (global stage of its condition component, name)} for loops whose condition name is not unique."""
+    loops = M.loops_of(shape)
+    names = [l['comps'][l['cond']]['name'] for l in loops]
+    return {j: (M.comp_stage(l, l['comps'][l['cond']]), names[j]) for j, l in enumerate(loops) if names.count(names[j]) > 1}
+
+
+def _sel_state_of_other_loop(f):
+    """two DoWhile documents whose condition components have the same name (in different stages): the state of a loop
+    (and the condition dependency of consumers) is computed from the newest instance with that NAME in any stage"""
+    case, ob = f['case'], f.get('observed') or {}
+    ks = case.get('ks')
+    if not ks or len(ks) < 2:
+        return False
+    share = _sharing_condition_name(case['shape'], ks)
+    sig = _strip(f['sig'])
+    if sig in ('state:iteration', 'state:condition'):
+        j = ob.get('loop')
+        if j not in share:
+            return False
+        peers = [i for i in share if share[i][1] == share[j][1]]
+        newest = max(ks[i] for i in peers)
+        if ob.get('got_iters') != [newest]:
+            return False
+        if sig == 'state:iteration':
+            return newest != ks[j]
+        return ob.get('got_stage') in [share[i][0] for i in peers if ks[i] == newest] and \
+            (ob.get('got_stage') != share[j][0] or newest != ks[j])
+    if sig == 'consumer:predecessors:foreign':
+        if ob.get('missing') or not ob.get('unexpected') or not share:
+            return False
+        allowed = set()
+        for j in share:
+            peers = [i for i in share if share[i][1] == share[j][1]]
+            newest = max(ks[i] for i in peers)
+            allowed |= {'stage%d.%d#%s' % (share[i][0], newest, share[i][1]) for i in peers if ks[i] == newest}
+        return set(ob['unexpected']) <= allowed
+    return False
+
+
 KNOWN_SELECTORS = {'latest_is_lexicographic_max': _sel_latest_lexicographic,
-                   'aggregate_order_lexicographic': _sel_aggregate_lexicographic}
+                   'aggregate_order_lexicographic': _sel_aggregate_lexicographic,
+                   'arguments_rewritten_twice': _sel_arguments_rewritten_twice,
+                   'state_of_other_loop_with_same_condition_name': _sel_state_of_other_loop}
